@@ -536,21 +536,42 @@ fn replay_input(v: &Value) -> Option<Fail> {
 
 // ------------------------------------------------------------------ CLI sample
 
-fn cli_json(args: &[&str]) -> Result<Vec<J>, String> {
+/// Spawns left for `cli-sample` (cases x 3 plus an allowance for shrinking a failure):
+/// work is bounded by counts, never by time — a shrink run made of process spawns would
+/// otherwise take many minutes on a loaded machine.
+static SPAWNS_LEFT: std::sync::atomic::AtomicI64 = std::sync::atomic::AtomicI64::new(0);
+
+enum CliErr {
+    /// the child could not be run to completion (watchdog, spawn failure, spawn budget):
+    /// inconclusive, the case is discarded
+    Inconclusive,
+    Failed(String),
+}
+
+fn spawn(args: &[&str]) -> Result<cli::CliOut, CliErr> {
+    if SPAWNS_LEFT.fetch_sub(1, std::sync::atomic::Ordering::SeqCst) <= 0 {
+        return Err(CliErr::Inconclusive);
+    }
     let out = cli::run(args, None);
     if out.timed_out {
-        return Err("timeout".into());
+        return Err(CliErr::Inconclusive);
     }
+    Ok(out)
+}
+
+fn cli_json(args: &[&str]) -> Result<Vec<J>, CliErr> {
+    let out = spawn(args)?;
     if !out.ok() {
-        return Err(format!("exit {:?} signal {:?}: {}", out.code, out.signal, out.stderr_str().lines().next().unwrap_or("")));
+        return Err(CliErr::Failed(format!("exit {:?} signal {:?}: {}", out.code, out.signal, out.stderr_str().lines().next().unwrap_or(""))));
     }
-    jsonval::parse_stream(&out.stdout).map_err(|e| format!("stdout is not a JSON stream: {:?}: {}", e, show_bytes(&out.stdout[..out.stdout.len().min(200)])))
+    jsonval::parse_stream(&out.stdout).map_err(|e| CliErr::Failed(format!("stdout is not a JSON stream: {:?}: {}", e, show_bytes(&out.stdout[..out.stdout.len().min(200)]))))
 }
 
 fn check_cli(stream: &[Y], r: &gy::RenderedYaml, u: &mut Src, st: &mut Stats, per_stream: usize) -> Result<(), Fail> {
     let text = &r.text[..];
     let qualifying: Vec<usize> = (0..r.spans.len()).filter(|&i| r.spans[i].end > r.spans[i].start).collect();
     if qualifying.is_empty() {
+        st.class("cli-discarded/stream-without-token");
         st.discard();
         return Ok(());
     }
@@ -575,28 +596,42 @@ fn check_cli(stream: &[Y], r: &gy::RenderedYaml, u: &mut Src, st: &mut Stats, pe
             };
             st.class(&format!("cli-offset-in-{}", role));
             let os = o.to_string();
-            let loc = cli::run(&["yq-locate", "--offset", &os, &fname], None);
-            if loc.timed_out {
-                st.discard();
-                return Ok(());
-            }
+            let loc = match spawn(&["yq-locate", "--offset", &os, &fname]) {
+                Ok(l) => l,
+                Err(_) => {
+                    st.class("cli-discarded/child-inconclusive");
+                    st.discard();
+                    return Ok(());
+                }
+            };
             if !loc.ok() && dense && loc.stderr_str().starts_with(&format!("Error: Could not locate position at offset {}", o)) {
                 fail!(OPEN_SHAPES[0], info(json!({"exit": loc.code, "stderr": loc.stderr_str().lines().next().unwrap_or("").to_string(), "open_positions_compact": false, "route": "cli"})));
             }
             if !loc.ok() {
                 fail!(format!("C29/cli/yq-locate-failed/{}", role), info(json!({"exit": loc.code, "stderr": loc.stderr_str().lines().next().unwrap_or("").to_string()})));
             }
+            // the expression exactly as printed goes to `--from-file` (a key may contain any
+            // character, NUL included, which no argv can carry)
             let so = loc.stdout_str();
             let expr = so.strip_suffix('\n').unwrap_or(&so).to_string();
+            let efile = cli::write_tmp("c29.expr", &loc.stdout);
+            let ename = efile.to_string_lossy().to_string();
             st.evals(1);
-            match cli_json(&["yq", "-s", "-o", "json", &expr, &fname]) {
+            let got = cli_json(&["yq", "-s", "-o", "json", "--from-file", &ename, &fname]);
+            let _ = std::fs::remove_file(&efile);
+            match got {
                 Ok(v) if v.len() == 1 => {
                     if let Err(why) = matches_model(&v[0], target) {
                         fail!(format!("C29/cli/locate-expr/wrong-value/{}", role), info(json!({"expression": expr, "actual": to_compact(&v[0]), "mismatch": why})));
                     }
                 }
                 Ok(v) => fail!(format!("C29/cli/locate-expr/output-count/{}", role), info(json!({"expression": expr, "outputs": v.len()}))),
-                Err(e) => fail!(format!("C29/cli/locate-expr/failed/{}", role), info(json!({"expression": expr, "failure": e}))),
+                Err(CliErr::Inconclusive) => {
+                    st.class("cli-discarded/child-inconclusive");
+                    st.discard();
+                    return Ok(());
+                }
+                Err(CliErr::Failed(e)) => fail!(format!("C29/cli/locate-expr/failed/{}", role), info(json!({"expression": expr, "failure": e}))),
             }
             st.evals(1);
             // `yq` evaluates the filter once per document: every document's cursor shares the
@@ -611,8 +646,13 @@ fn check_cli(stream: &[Y], r: &gy::RenderedYaml, u: &mut Src, st: &mut Stats, pe
                     }
                 }
                 Ok(v) => fail!(format!("C29/cli/at_offset/output-count/{}", role), info(json!({"program": prog, "outputs": v.len(), "documents": stream.len()}))),
-                Err(e) if dense && e.contains(&format!("no node at offset {}", o)) => fail!(OPEN_SHAPES[1], info(json!({"program": prog, "failure": e, "open_positions_compact": false, "route": "cli"}))),
-                Err(e) => fail!(format!("C29/cli/at_offset/failed/{}", role), info(json!({"program": prog, "failure": e}))),
+                Err(CliErr::Inconclusive) => {
+                    st.class("cli-discarded/child-inconclusive");
+                    st.discard();
+                    return Ok(());
+                }
+                Err(CliErr::Failed(e)) if dense && e.contains(&format!("no node at offset {}", o)) => fail!(OPEN_SHAPES[1], info(json!({"program": prog, "failure": e, "open_positions_compact": false, "route": "cli"}))),
+                Err(CliErr::Failed(e)) => fail!(format!("C29/cli/at_offset/failed/{}", role), info(json!({"program": prog, "failure": e}))),
             }
             st.evals(1);
         }
@@ -702,10 +742,12 @@ pub fn run(cx: &mut Ctx) {
 
     if cli::cli_available() {
         let per_stream = 1;
+        let budget = Budget { quick: 100, thorough: 3_000, max_len: 3000 };
+        SPAWNS_LEFT.store(cx.cases(&budget) as i64 * 3 + 240, std::sync::atomic::Ordering::SeqCst);
         cx.check(
             "cli-sample",
             "the same statement through the binary: `succinctly yq-locate --offset N FILE` prints the expression; `succinctly yq -s -o json EXPR FILE` must print the model value; `succinctly yq -o json 'at_offset(N)' FILE` must print the token's own value once per document; 1 random token offset per generated stream",
-            Budget { quick: 100, thorough: 3_000, max_len: 3000 },
+            budget,
             |u, st| {
                 let (stream, r) = gen_case(u, &o);
                 st.describe(|| describe(&stream, &r));
@@ -724,6 +766,8 @@ pub fn run(cx: &mut Ctx) {
                 }
             },
         );
+        cx.require_class("cli-sample", "cli-offset-in-key", 10);
+        cx.require_class("cli-sample", "cli-offset-in-scalar", 10);
         cli::cleanup();
     } else {
         cx.note("cli-sample skipped: no CLI binary (VH_CLI)");
